@@ -575,6 +575,34 @@ def _diff_figs(a, b):
     return out
 
 
+class _SkipDefinition(Exception):
+    pass
+
+
+_CALIBRATION = {}
+
+
+def _definition_calibrated(ctg, tree, counters):
+    key = (tuple(map(tuple, tree.inputs)), tuple(tree.output), tuple(sorted(tree.size_dict.items())))
+    ok = _CALIBRATION.get(key)
+    if ok is None:
+        try:
+            n = tree.N
+            ssa = [(i, n + i - 2) if i > 1 else (0, 1) for i in range(1, n)] if n > 1 else []
+            pristine = ctg.ContractionTree.from_path(tree.inputs, tree.output, tree.size_dict, ssa_path=ssa)
+            fig = _figures(pristine)
+            per_def, stats_def, mult_def = _definition_figures(pristine)
+            ok = all(fig["per_node"].get(k) is not None and all(fig["per_node"][k][q] == want[q] for q in ("legs", "involved", "size", "flops"))
+                     for k, want in per_def.items()) and (n <= 1 or fig["stats"] == stats_def) and fig["multiplicity"] == mult_def
+        except Exception:
+            ok = False
+        _CALIBRATION.clear()  # one network per run
+        _CALIBRATION[key] = ok
+        if not ok:
+            counters["probe:definition_oracle_off_library_defines_figures_differently"] += 1
+    return ok
+
+
 def oracle_c04(ctg, tree, counters):
     bad = []
     snap = copy.deepcopy(tree)
@@ -591,8 +619,13 @@ def oracle_c04(ctg, tree, counters):
     if d:
         fields = sorted({x.split(":")[0].split(".")[-1] for x in d})
         bad.append(("figures-differ-from-rebuild", "; ".join(d[:6]), {"fields": fields}))
-    # the same figures straight from the definitions (a rebuild goes through the same remove_ind code as the subject)
+    # the same figures straight from the definitions (a rebuild goes through the same remove_ind code as the subject).
+    # The property only promises "equals a rebuild": the definition is used only while it agrees with what the library
+    # reports for a freshly built, never transformed tree of this network (calibrated once per run) - a library that
+    # defines its cost figures differently switches this oracle off instead of setting it off.
     try:
+        if not _definition_calibrated(ctg, tree, counters):
+            raise _SkipDefinition()
         per_def, stats_def, mult_def = _definition_figures(copy.deepcopy(tree))
         dd = []
         for n, want in per_def.items():
@@ -610,6 +643,8 @@ def oracle_c04(ctg, tree, counters):
         if dd:
             fields = sorted({x.split(":")[0].split(".")[-1].split(" ")[0] for x in dd})
             bad.append(("figures-differ-from-definition", "; ".join(dd[:6]), {"fields": fields}))
+    except _SkipDefinition:
+        pass
     except Exception as e:
         bad.append(("definition-oracle-raised", f"{type(e).__name__}: {e}", {}))
     # running trackers vs forced recomputation on the same tree
